@@ -1105,6 +1105,12 @@ func (t *tScreen) draw() {
 					t.cells.SetDirty(x+1, y, true)
 				}
 			}
+			if width < 1 {
+				// outside the cell buffer (it can be smaller than
+				// the cached size while the window size cannot be
+				// queried): always advance
+				width = 1
+			}
 			x += width - 1
 		}
 	}
@@ -2130,6 +2136,9 @@ func (t *tScreen) engage() error {
 	t.running = true
 	if ws, err := t.tty.WindowSize(); err == nil && ws.Width != 0 && ws.Height != 0 {
 		t.cells.Resize(ws.Width, ws.Height)
+	} else {
+		// keep the size we know (disengage emptied the buffer)
+		t.cells.Resize(t.w, t.h)
 	}
 	stopQ := make(chan struct{})
 	t.stopQ = stopQ
